@@ -20,7 +20,7 @@ for f in k["findings"]:
         new = by_subject[subj]
         old = f.get("commit", "")
         if old and old != new:
-            f["what"] = f["what"].replace(old, new)
+            f["what"] = f["what"].replace(" " + old + " ", " " + new + " ", 1) if len(old) >= 7 else f["what"]
         f["commit"] = new
     else:
         print("WARNING: cannot resolve commit for", f.get("signature"), f.get("commit"))
